@@ -10,11 +10,18 @@ Local Open Scope nat_scope.
 Record shrink (g g' : sgraph) : Prop := {
   sh_label : forall x, sg_alive g' x = true -> sg_label g' x = sg_label g x;
   sh_keep : forall x t, sg_label g x = Some t -> t <> GAnd -> sg_label g' x = Some t;
-  sh_val : forall s x b, sg_alive g' x = true -> GV g s x b -> GV g' s x b
+  sh_val : forall s x b, sg_alive g' x = true -> GV g s x b -> GV g' s x b;
+  (* a survivor whose children are all literal leaves keeps its child list *)
+  sh_out : forall x, sg_alive g' x = true ->
+           (forall c, In c (sg_out g x) -> exists l, sg_label g c = Some (GLit l)) ->
+           sg_out g' x = sg_out g x
 }.
 
 Lemma shrink_refl g : shrink g g.
 Proof. constructor; auto. Qed.
+
+Lemma lit_not_and t l : t = GLit l -> t <> GAnd.
+Proof. intros ->. discriminate. Qed.
 
 Lemma shrink_alive g g' x : shrink g g' -> sg_alive g' x = true -> sg_alive g x = true.
 Proof. intros H Ha. unfold sg_alive in *. rewrite <- (sh_label _ _ H x Ha). exact Ha. Qed.
@@ -27,6 +34,9 @@ Proof.
   - intros x t Hl Ht. apply (sh_keep _ _ H23); [|exact Ht]. now apply (sh_keep _ _ H12).
   - intros s x b Ha Hv. apply (sh_val _ _ H23); [exact Ha|]. apply (sh_val _ _ H12); [|exact Hv].
     now apply (shrink_alive g2 g3).
+  - intros x Ha Hc. pose proof (sh_out _ _ H12 x (shrink_alive g2 g3 x H23 Ha) Hc) as E12.
+    rewrite (sh_out _ _ H23 x Ha); [exact E12|]. rewrite E12. intros c Hin.
+    destruct (Hc c Hin) as [l Hl]. exists l. apply (sh_keep _ _ H12 c _ Hl). discriminate.
 Qed.
 
 (* ---------- lists ---------- *)
@@ -45,6 +55,19 @@ Proof.
   destruct (Nat.eqb_spec y c') as [->|Hy].
   - intros [E|H]; [congruence|exact H].
   - intros [<-|H]; [now left|right; now apply IH].
+Qed.
+
+Lemma remove1_notin c l : ~ In c l -> remove1 c l = l.
+Proof.
+  induction l as [|y l IH]; intros H; [reflexivity|]. cbn [remove1].
+  destruct (Nat.eqb_spec y c) as [->|Hy]; [exfalso; apply H; now left|].
+  f_equal. apply IH. intros Hin. apply H. now right.
+Qed.
+
+Lemma filter_all {A} (p : A -> bool) l : (forall x, In x l -> p x = true) -> filter p l = l.
+Proof.
+  induction l as [|x l IH]; intros H; [reflexivity|]. cbn [filter]. rewrite (H x (or_introl eq_refl)).
+  f_equal. apply IH. intros y Hy. apply H. now right.
 Qed.
 
 (* dropping one child whose value is neutral *)
@@ -95,6 +118,9 @@ Proof.
   - reflexivity.
   - intros x t H _. exact H.
   - intros s x b _. apply remove_neutral_val.
+  - intros x _ Hc. destruct (Nat.eq_dec x nx) as [->|Hne]; [|now apply remove_edge_out_other].
+    rewrite remove_edge_out_same. apply remove1_notin. intros Hin.
+    destruct (Hc c Hin) as [l Hl]. destruct Hcase as [[_ E]|[_ E]]; congruence.
 Qed.
 End RemoveNeutral.
 
@@ -320,6 +346,10 @@ Proof.
     + apply H3. intros c bc Hc Hk [f Hf]. apply negb_false_iff, mem_In in Hk.
       apply (dead_false g0 R s) with (f := f) (x := c); [|exact Hk|exact Hf].
       intros z Hz. split; [apply (mi_dead _ _ _ Hm z Hz)|now apply Hj].
+  - intros x Ha Hc. unfold sg_out at 1. rewrite (mi_edges _ _ _ Hm).
+    fold (outs (filter (notin R) (sg_edges g0)) x). rewrite (outs_notin R _ x (Hnr x Ha)).
+    fold (sg_out g0 x). apply filter_all. intros c Hin. apply negb_true_iff, mem_notIn. intros HR.
+    destruct (Hc c Hin) as [l Hl]. destruct (mi_dead _ _ _ Hm c HR) as [E _]. congruence.
 Qed.
 
 Lemma del_chain_shrink g nx c g' fuel : Inv g -> sg_label g nx = Some GAnd ->
